@@ -6,6 +6,7 @@ import contextlib
 import glob
 import gzip
 import io
+import itertools
 import json
 import logging
 import os
@@ -15,8 +16,10 @@ import shutil
 import subprocess
 import sys
 import tempfile
+import zlib
 
-from .. import gen, observe, probes, refmodels_c15 as m15, refmodels_c16 as M, selgen, textmodel_c20 as tm
+from .. import gen, observe, probes, refcodec, refmodels_c15 as m15, refmodels_c16 as M, selgen, textmodel_c20 as tm
+from .. import refmsgpack as mp
 from ..core import subseed
 
 ID = "C16"
@@ -26,9 +29,17 @@ RULE = (
     "cases = (list of 1-5 source files, rdump argv).  Sources hold generated records of two families: A = the selector "
     "pool shapes (every whitelisted field type, nested records, heterogeneous shapes) and B = generated descriptors over "
     "the JSON-representable field types with boundary/hostile values, same-name descriptors and timestamp fields; each "
-    "source is good (plain / gzip / bzip2), missing, empty, garbage or a plain stream truncated at a random byte.  "
+    "source is good (plain / gzip / bzip2), missing, empty, garbage, a plain stream truncated at a random byte, or damaged in the "
+    "middle (gzip / bzip2 file with 1-3 inverted bytes, biased to damage the decompressor notices mid-stream; plain stream "
+    "with a lying length prefix, an invalid first body byte, a foreign extension type or an unknown frame sub-type).  "
     "Enumerated part (identical for every seed, fault enumeration): every placement of {good, missing, empty, garbage, "
-    "truncated} over 1-3 sources (quick) / 1-4 sources (thorough).  Seeded part: random placements x options --skip 0..N+1, "
+    "truncated} over 1-3 sources (quick) / 1-4 sources (thorough), plus every mid-stream damage kind at every position among "
+    "2-3 (2-4) good sources and next to every other kind of bad source.  A damaged compressed source may contribute ANY "
+    "prefix of the records the independently decompressed bytes decode to (codec buffering decides how much is delivered): "
+    "the output must agree with one of these candidate expectations; every other source contributes exactly its intact prefix.  "
+    "Dedicated cases run one argv with --multi-timestamp and a -F/-X that removes a timestamp field through -w stream and the "
+    "stdout modes csv / line / line-verbose / json / jsonlines and demand the model's records (projection before expansion) in "
+    "every mode.  Seeded part: random placements x options --skip 0..N+1, "
     "-c 1..N+1, -s (generated must-support expressions for A, equality/helper templates for B) with and without -n, -F, -X "
     "(unknown, reserved and repeated names included), --record-source, --record-classification, --multi-timestamp, --split "
     "with --suffix-length, -w writers stream (plain/gz) / jsonfile / csvfile / line / text run in-process through "
@@ -43,7 +54,10 @@ RULE = (
 ASSUMPTIONS = [
     "-c 0 (means 'no limit' today), -E and --format are not generated; grouped records are not part of the generated inputs",
     "a name repeated in -F is not generated (the rewriter then builds a descriptor that lists the field twice, which is outside the descriptor grammar)",
-    "truncated sources are plain streams cut at a random byte; compressed sources are whole, empty or garbage (compressed-prefix semantics is C04's subject)",
+    "truncated sources are plain streams cut at a random byte; compressed sources are whole, empty, garbage or damaged by inverted bytes - for the "
+    "latter any prefix of the decodable records is accepted (the exact compressed-prefix semantics is C04's subject); a damage whose decompressed bytes "
+    "decode to records other than the ones written (undetectable corruption) is skipped and counted; lz4 / zstd sources are not generated",
+    "a plain stream whose LAST frame carries a too-long length prefix (all its bytes present) is not generated: whether that frame counts as complete is C04's subject",
     "inputs avoid the value classes owned by C01 known findings (IPv6 below 2**32, scoped addresses, dynamic holding a path); a case whose "
     "source bytes do not decode (independent codec) to the records written is skipped and counted",
     "a selector that is undefined on some record (reference evaluator, all sub-expressions eager) makes the case undefined: skipped and counted; "
@@ -63,6 +77,11 @@ ANCHORS = [
     "flow.record.adapter.split:SplitWriter.write",
 ]
 KINDS = ("good", "missing", "empty", "garbage", "trunc")
+# sources damaged in the middle: compressed files with inverted bytes, plain streams with a corrupted length prefix,
+# an invalid first body byte, a foreign extension type or an unknown frame sub-type
+DMG_COMP = ("dmg-gz", "dmg-bz2")
+DMG_PLAIN = ("dmg-len", "dmg-body", "dmg-ext", "dmg-sub")
+DMG = DMG_COMP + DMG_PLAIN
 SUB_MODES = ("csv", "json", "jsonlines", "line", "line-verbose", "text", "list", "stream-stdout")
 SUB_MODE_CYCLE = SUB_MODES + ("list",)
 REPO = os.environ.get("VERIF_REPO", "/repo")
@@ -125,12 +144,35 @@ def placements(maxn):
     return out
 
 
+def damage_placements(maxn):
+    """A source damaged mid-stream at every position among good ones, and next to each other kind of bad source."""
+    out = []
+    for n in range(2, maxn + 1):
+        for k in DMG:
+            for pos in range(n):
+                for rep in range(3 if k == "dmg-gz" else 1):
+                    out.append((["good"] * pos + [k] + ["good"] * (n - pos - 1), rep))
+    for k in DMG:
+        for bad in ("missing", "garbage", "trunc", "empty"):
+            out.append(([k, bad, "good"], 0))
+            out.append(([bad, k, "good"], 0))
+    for a in DMG:
+        out.append(([a, "dmg-gz", "good"], 1))
+    return out
+
+
 def generate(ctx):
     idx = 0
     for pat in placements(ctx.scale(3, 4)):
         if ctx.mine(idx):
             yield {"k": "place", "pattern": pat, "fam": "AB"[idx % 2], "s": subseed("c16", "place", idx)}
         idx += 1
+    for pat, rep in damage_placements(ctx.scale(3, 4)):
+        if ctx.mine(idx):
+            yield {"k": "place", "pattern": pat, "fam": "AB"[idx % 2], "s": subseed("c16", "dmgplace", idx, rep)}
+        idx += 1
+    for i in range(ctx.scale(3, 20)):
+        yield {"k": "mtx", "fam": "C", "s": subseed("c16", ctx.seed, "mtx", ctx.shard, i)}
     for i in range(ctx.scale(160, 1200)):
         yield {"k": "rand", "fam": "AB"[i % 2], "s": subseed("c16", ctx.seed, "rand", ctx.shard, i)}
     for i in range(ctx.scale(27, 150)):
@@ -259,8 +301,77 @@ def canonical(records):
 
 
 class Source:
-    def __init__(self, kind, path, comp, records, data, cut):
+    def __init__(self, kind, path, comp, records, data, cut, flex=False):
         self.kind, self.path, self.comp, self.records, self.data, self.cut = kind, path, comp, records, data, cut
+        self.flex = flex  # the source may contribute ANY prefix of its entries (how much of a damaged compressed
+        #                   file is delivered before the decompressor raises depends on the codec's buffering)
+
+
+def decompress_prefix(raw, comp):
+    """Independent computation of what a decompressor can deliver from damaged bytes: fed byte by byte, everything
+    produced before it raises.  -> (bytes, failed mid-stream?)"""
+    d = zlib.decompressobj(wbits=31) if comp == ".gz" else bz2.BZ2Decompressor()
+    out = bytearray()
+    for i in range(len(raw)):
+        try:
+            out += d.decompress(raw[i : i + 1])
+        except Exception:  # noqa: BLE001 - zlib.error / OSError / ValueError: the data is damaged here
+            return bytes(out), (len(raw) - i) > 8
+        if getattr(d, "eof", False):
+            break
+    return bytes(out), False
+
+
+def tolerant_prefix(data):
+    """Observations of the records in the frames before the first frame the independent decoder refuses."""
+    if data[: len(refcodec.HEADER_FRAME)] != refcodec.HEADER_FRAME:
+        return []
+    frames, _ = refcodec.split_frames(data)
+    dec = refcodec.Decoder()
+    for i, (_, _, body) in enumerate(frames):
+        try:
+            dec.frame(body, i)
+        except (refcodec.FormatError, mp.MsgpackError):
+            break
+    return dec.records
+
+
+def damage_plain(rng, data, kind):
+    """Damage one frame after the header in a plain stream.  -> damaged bytes or None when the stream has no such frame."""
+    frames, _ = refcodec.split_frames(data)
+    if len(frames) < 2:
+        return None
+    if kind == "dmg-len":
+        import struct
+
+        # a length prefix that lies: too long on a frame that is followed by others (the body then swallows the next
+        # frames), or too short (the body is cut).  A too-long length on the LAST frame is left out: all bytes of that
+        # frame are present and whether it still counts as complete is C04's subject.
+        b = bytearray(data)
+        if len(frames) >= 3 and rng.random() < 0.6:
+            start, end, body = frames[rng.randrange(1, len(frames) - 1)]
+            b[start : start + 4] = struct.pack(">I", len(body) + rng.choice([1, 3, len(data) - end, len(data) - end + 1000]))
+        else:
+            start, end, body = frames[rng.randrange(1, len(frames))]
+            b[start : start + 4] = struct.pack(">I", max(0, len(body) - rng.choice([1, 2, len(body) // 2])))
+        return bytes(b)
+    start, end, body = frames[rng.randrange(1, len(frames))]
+    b = bytearray(data)
+    if kind == "dmg-body":
+        b[start + 4] = 0xC1  # the one byte msgpack never uses
+        return bytes(b)
+    first = body[0]
+    off = {0xC7: 2, 0xC8: 3, 0xC9: 5}.get(first, 1 if 0xD4 <= first <= 0xD8 else None)
+    if off is None:
+        return None
+    if kind == "dmg-ext":
+        b[start + 4 + off] = 15
+        return bytes(b)
+    if body[off + 1] != 0x92:
+        return None
+    b[start + 4 + off + 2] = 0x7F  # [sub-type, payload]: a sub-type the format does not have
+    return bytes(b)
+
 
 
 def make_source(rng, kind, index, draw, dirpath):
@@ -281,6 +392,35 @@ def make_source(rng, kind, index, draw, dirpath):
             raw = bz2.compress(data)
         with open(path, "wb") as f:
             f.write(raw)
+    elif kind in DMG:
+        records = canonical(draw(rng.choice([1, 2, 3, 4])))
+        whole = stream_bytes(records)
+        flex = False
+        if kind in DMG_COMP:
+            comp = ".gz" if kind == "dmg-gz" else ".bz2"
+            path = os.path.join(dirpath, "s%d.records%s" % (index, comp))
+            packed = gzip.compress(whole) if comp == ".gz" else bz2.compress(whole)
+            raw = packed
+            for attempt in range(12):
+                bb = bytearray(packed)
+                lo, hi = len(bb) // 4, max(len(bb) // 4 + 1, (3 * len(bb)) // 4)
+                for _ in range(rng.choice([1, 1, 2, 3])):
+                    bb[rng.randrange(lo, hi)] ^= 0xFF
+                raw = bytes(bb)
+                data, mid = decompress_prefix(raw, comp)
+                if mid:
+                    break  # prefer damage the decompressor notices in the middle of the data
+            data, _ = decompress_prefix(raw, comp)
+            flex = True
+        else:
+            comp = ""
+            raw = damage_plain(rng, whole, kind)
+            if raw is None:
+                raw = whole[: len(whole) - 1]
+            data = raw
+        with open(path, "wb") as f:
+            f.write(raw)
+        return Source(kind, path, comp, records, data, None, flex)
     elif kind == "garbage":
         junk = bytes(rng.randrange(256) for _ in range(rng.choice([1, 3, 50, 400])))
         with open(path, "wb") as f:
@@ -292,10 +432,10 @@ def make_source(rng, kind, index, draw, dirpath):
 
 def source_entries(ctx, src):
     """Entries a source contributes according to the reference; None when the bytes do not decode to the written records."""
-    if src.kind not in ("good", "trunc"):
+    if src.kind not in ("good", "trunc") + DMG:
         return []
     try:
-        decoded = M.intact_prefix(src.data)
+        decoded = tolerant_prefix(src.data) if src.kind in DMG else M.intact_prefix(src.data)
     except Exception as e:  # noqa: BLE001 - the reference codec refuses the bytes: outside the input class
         ctx.note_add("precondition:reference decoder raised %s" % type(e).__name__)
         return None
@@ -601,6 +741,98 @@ def execute(ctx, case):
         shutil.rmtree(d, ignore_errors=True)
 
 
+class Collector:
+    """Stands in for ctx while an output is judged against one candidate expectation."""
+
+    def __init__(self):
+        self.found = []
+
+    def violation(self, key, msg, detail=None, case=None):
+        self.found.append((key, msg, detail))
+
+    def event(self, *a, **k):
+        pass
+
+
+def judge(ctx, candidates, fn):
+    """fn(c, sliced, final) compares rdump's output with one candidate expectation, reporting through c.  The output is
+    right when it agrees with some candidate (candidates differ only in how long a prefix each damaged compressed source
+    contributed); otherwise the differences from the first candidate (longest prefixes) are reported.
+    -> (ok, the matching (sliced, final) or the first candidate)"""
+    first = None
+    for cand in candidates:
+        c = Collector()
+        fn(c, cand[0], cand[1])
+        if not c.found:
+            return True, cand
+        if first is None:
+            first = c.found
+    for key, msg, detail in first:
+        ctx.violation(key, msg, detail=detail)
+    return False, candidates[0]
+
+
+def tame_family(rng):
+    """Family C: plain ASCII values, 2-3 timestamp fields per descriptor (for --multi-timestamp x -F/-X in every mode)."""
+    import datetime as dt
+
+    from flow.record import RecordDescriptor
+
+    descs = []
+    for i in range(rng.choice([1, 2])):
+        tsn = rng.sample(["created", "modified", "accessed", "ts", "seen"], rng.choice([2, 3]))
+        fields = [("string", "s"), ("varint", "v")] + [("datetime", n) for n in tsn] + [("boolean", "b")]
+        rng.shuffle(fields)
+        descs.append(RecordDescriptor("mt/d%d" % i, fields))
+
+    def draw(n):
+        out = []
+        for _ in range(n):
+            d = rng.choice(descs)
+            kw = {}
+            for t, fn in d.get_field_tuples():
+                if t == "string":
+                    kw[fn] = rng.choice(["alpha", "beta", "x y", "", None])
+                elif t == "varint":
+                    kw[fn] = rng.choice([0, 1, 7, 12345, None])
+                elif t == "boolean":
+                    kw[fn] = rng.choice([True, False, None])
+                else:
+                    kw[fn] = None if rng.random() < 0.15 else dt.datetime(2020 + rng.randrange(5), 1 + rng.randrange(12), 1 + rng.randrange(28),
+                                                                         rng.randrange(24), rng.randrange(60), tzinfo=dt.timezone.utc)
+            out.append(d(_source=rng.choice([None, "src"]), **kw))
+        return out
+
+    return draw, descs
+
+
+def mtx_options(rng, descs, total):
+    """--multi-timestamp with a projection / exclusion that removes at least one timestamp field."""
+    opts, argv = {"multi_timestamp": True}, ["--multi-timestamp"]
+    d = rng.choice(descs)
+    names = [n for _, n in d.get_field_tuples()]
+    dts = [n for t, n in d.get_field_tuples() if t == "datetime"]
+    drop = rng.sample(dts, rng.randint(1, len(dts)))
+    if rng.random() < 0.6:
+        f = [n for n in names if n not in drop]
+        rng.shuffle(f)
+        f = f[: rng.randint(1, len(f))] if f else ["s"]
+        if rng.random() < 0.6:
+            f = rng.choice([["ts", "ts_description"] + f, f + ["ts_description", "ts"], f + ["ts"]])
+        opts["fields"] = list(dict.fromkeys(f))
+        argv += ["-F", ",".join(opts["fields"])]
+    else:
+        opts["exclude"] = drop[: rng.choice([1, len(drop)])]
+        argv += ["-X", ",".join(opts["exclude"])]
+    if rng.random() < 0.4:
+        opts["count"] = rng.choice([1, 2, 3])
+        argv += ["-c", str(opts["count"])]
+    if rng.random() < 0.3:
+        opts["skip"] = rng.choice([1, 2])
+        argv += ["--skip", str(opts["skip"])]
+    return opts, argv
+
+
 def _execute(ctx, case, d):
     rng = random.Random(case["s"])
     fam = case["fam"]
@@ -608,9 +840,17 @@ def _execute(ctx, case, d):
     descs = None
     if fam == "A":
         draw = family_a(rng, case["s"])
+    elif fam == "C":
+        draw, descs = tame_family(rng)
     else:
         draw, descs = family_b(rng, case["s"], not ctx.quick, same_name=(case.get("mode") == "list"))
-    pattern = case.get("pattern") or [rng.choice(["good", "good", "good", "good", "good", "missing", "garbage", "empty", "trunc", "trunc"]) for _ in range(rng.randint(1, 5))]
+    if kind == "mtx":
+        pattern = ["good"] * rng.choice([1, 2])
+    else:
+        pool = ["good"] * 6 + ["missing", "garbage", "empty", "trunc", "trunc"] + list(DMG)
+        pattern = case.get("pattern") or [rng.choice(pool) for _ in range(rng.randint(1, 5))]
+        while sum(1 for k in pattern if k in DMG_COMP) > 2:
+            pattern[[i for i, k in enumerate(pattern) if k in DMG_COMP][-1]] = "good"
     use_stdin = kind == "sub" and rng.random() < 0.25
     if use_stdin:
         pattern = [rng.choice(["good", "good", "trunc"])]
@@ -622,12 +862,15 @@ def _execute(ctx, case, d):
     entries = [e for es in per_source for e in es]
     if kind == "place":
         opts, argv_opts = {}, []
+    elif kind == "mtx":
+        opts, argv_opts = mtx_options(rng, descs, len(entries))
     else:
         opts, argv_opts = make_options(rng, fam, sources, descs, len(entries), allow_unicode=(kind != "sub"))
-    # reference pipeline
+    # reference pipeline (over the longest prefixes first)
+    keep = None
     if opts.get("selector"):
         try:
-            entries, touched = M.reference_filter(opts["selector"], entries)
+            kept, touched = M.reference_filter(opts["selector"], entries)
         except M.CaseUndefined:
             ctx.event("skipped:selector_undefined")
             return
@@ -637,13 +880,34 @@ def _execute(ctx, case, d):
         ctx.event("selector_defined")
         if touched:
             ctx.event("selector_defined_touching_missing_field")
-    sliced, final = M.apply_options(entries, opts)
+        keep = set(id(e) for e in kept)
+    ranges = [range(len(es), -1, -1) if s.flex else [len(es)] for s, es in zip(sources, per_source)]
+    candidates = []
+    for combo in itertools.islice(itertools.product(*ranges), 600):
+        ents = [e for es, n in zip(per_source, combo) for e in es[:n]]
+        if keep is not None:
+            ents = [e for e in ents if id(e) in keep]
+        candidates.append(M.apply_options(ents, opts))
+    if any(s.flex for s in sources):
+        ctx.event("cases_with_damaged_compressed_source")
+        ctx.event("candidate_expectations", len(candidates))
+    for s in sources:
+        if s.kind in DMG:
+            ctx.event("damaged_source:" + s.kind)
     argv_src = [s.path for s in sources]
     detail = {"argv": None, "sources": [(s.kind, s.comp, len(s.records), s.cut) for s in sources], "options": opts, "family": fam}
     if kind == "sub":
-        _run_sub(ctx, case, rng, d, sources, argv_src, argv_opts, opts, sliced, final, detail, use_stdin)
+        _run_sub(ctx, case, rng, d, sources, argv_src, argv_opts, opts, candidates, detail, use_stdin, case.get("mode") or rng.choice(SUB_MODES))
+    elif kind == "mtx":
+        counts = {}
+        counts["stream"] = _run_inproc(ctx, case, rng, d, fam, sources, argv_src, argv_opts, opts, candidates, detail, force="stream")
+        for mode in ("csv", "line", "line-verbose", "json", "jsonlines"):
+            counts[mode] = _run_sub(ctx, case, rng, d, sources, argv_src, argv_opts, opts, candidates, dict(detail), False, mode)
+        ctx.event("mtx_cases")
+        if len(set(counts.values())) == 1 and None not in counts.values():
+            ctx.event("mtx_all_modes_same_record_count")
     else:
-        _run_inproc(ctx, case, rng, d, fam, sources, argv_src, argv_opts, opts, final, detail)
+        _run_inproc(ctx, case, rng, d, fam, sources, argv_src, argv_opts, opts, candidates, detail)
 
 
 def _cells(ctx, case, opts, outkind, sources):
@@ -655,12 +919,12 @@ def _cells(ctx, case, opts, outkind, sources):
     ctx.cell("output", outkind, case["fam"])
 
 
-def _run_inproc(ctx, case, rng, d, fam, sources, argv_src, argv_opts, opts, final, detail):
+def _run_inproc(ctx, case, rng, d, fam, sources, argv_src, argv_opts, opts, candidates, detail, force=None):
     choices = ["stream", "stream", "stream.gz", "csvfile", "line", "text"] + (["jsonfile", "jsonfile"] if fam == "B" else [])
-    outkind = "stream" if case["k"] == "place" else rng.choice(choices)
+    outkind = force or ("stream" if case["k"] == "place" else rng.choice(choices))
     split = None
     argv_split = []
-    if case["k"] != "place" and outkind in ("stream", "stream.gz", "jsonfile", "csvfile") and rng.random() < 0.25:
+    if case["k"] == "rand" and outkind in ("stream", "stream.gz", "jsonfile", "csvfile") and rng.random() < 0.25:
         split = rng.choice([1, 2, 3, 5])
         suffix = rng.choice([1, 2, 3])
         argv_split = ["--split", str(split), "--suffix-length", str(suffix)]
@@ -680,12 +944,11 @@ def _run_inproc(ctx, case, rng, d, fam, sources, argv_src, argv_opts, opts, fina
     if exc is not None or rc not in (None, 0):
         ctx.violation(None, "%s: rdump failed although the reference pipeline is defined" % what,
                       detail=dict(detail, rc=rc, exception=repr(exc)[:400], stderr=se[-600:]))
-        return
+        return None
     _cells(ctx, case, opts, outkind + ("+split" if split else ""), sources)
     paths = part_paths(out, split)
     if split:
         ctx.event("split_parts", len(paths))
-    ok = True
     if outkind in ("stream", "stream.gz", "jsonfile"):
         got = []
         try:
@@ -693,8 +956,8 @@ def _run_inproc(ctx, case, rng, d, fam, sources, argv_src, argv_opts, opts, fina
                 got += read_records(p)
         except Exception as e:  # noqa: BLE001
             ctx.violation(None, "%s: rdump's output cannot be read back" % what, detail=dict(detail, exception=repr(e)[:300], files=[os.path.basename(p) for p in paths]))
-            return
-        ok = compare_records(ctx, got, final, what, detail, json_mode=(outkind == "jsonfile"))
+            return None
+        ok, (sliced, final) = judge(ctx, candidates, lambda c, sl, fi: compare_records(c, got, fi, what, detail, json_mode=(outkind == "jsonfile")))
         ctx.event("records_compared", len(got))
     else:
         if split:
@@ -702,17 +965,44 @@ def _run_inproc(ctx, case, rng, d, fam, sources, argv_src, argv_opts, opts, fina
         else:
             texts = [read_text(out)] if os.path.exists(out) else [""]
         if outkind == "csvfile":
-            ok = compare_csv(ctx, texts, final, None, None, what, detail)
+            ok, (sliced, final) = judge(ctx, candidates, lambda c, sl, fi: compare_csv(c, texts, fi, None, None, what, detail))
         elif outkind == "line":
-            ok = compare_line(ctx, texts[0], final, None, None, False, what, detail)
+            ok, (sliced, final) = judge(ctx, candidates, lambda c, sl, fi: compare_line(c, texts[0], fi, None, None, False, what, detail))
         else:
-            ok = compare_textlines(ctx, texts[0], final, what, detail)
+            ok, (sliced, final) = judge(ctx, candidates, lambda c, sl, fi: compare_textlines(c, texts[0], fi, what, detail))
         ctx.event("text_records_compared", len(final))
     _account(ctx, case, opts, final, ok, outkind, detail)
+    return len(final) if ok else None
 
 
-def _run_sub(ctx, case, rng, d, sources, argv_src, argv_opts, opts, sliced, final, detail, use_stdin):
-    mode = case.get("mode") or rng.choice(SUB_MODES)
+def compare_list_output(c, so, sliced, what, detail):
+    got_descs, processed = parse_list_output(so)
+    exp_descs = []
+    for e in sliced:
+        key = (e.obs[1], [(t, n) for t, n in e.obs[2]] + [(M.META_TYPES[m], m) for m in M.META])
+        if key not in exp_descs:
+            exp_descs.append(key)
+    ok = True
+    if processed != len(sliced):
+        c.violation(None, "%s: 'Processed N records' differs from the reference count" % what, detail=dict(detail, got=processed, expected=len(sliced)))
+        ok = False
+    gd = [(n, f) for n, f in got_descs]
+    if sorted(map(repr, gd)) != sorted(map(repr, exp_descs)):
+        c.violation(None, "%s: the set of distinct descriptors differs from the reference" % what,
+                    detail=dict(detail, got=[g[0] for g in gd], expected=[g[0] for g in exp_descs]))
+        ok = False
+    return ok
+
+
+def compare_json_mode(c, so, final, mode, what, detail):
+    ok = compare_plain_json(c, so, final, what, detail)
+    if ok and mode == "jsonlines" and len([ln for ln in so.split("\n") if ln.strip()]) != len(final):
+        c.violation(None, "%s: not one document per line" % what, detail=detail)
+        ok = False
+    return ok
+
+
+def _run_sub(ctx, case, rng, d, sources, argv_src, argv_opts, opts, candidates, detail, use_stdin, mode):
     stdin_data = None
     if use_stdin:
         s = sources[0]
@@ -733,24 +1023,20 @@ def _run_sub(ctx, case, rng, d, sources, argv_src, argv_opts, opts, sliced, fina
     except subprocess.TimeoutExpired:
         ctx.event("subprocess_timeout")
         ctx.require(False, "an rdump subprocess exceeded its watchdog")
-        return
+        return None
     what = "subprocess %s%s" % (mode, " (stdin)" if use_stdin else "")
     if rc != 0:
         ctx.violation(None, "%s: rdump exited with %s although the reference pipeline is defined" % (what, rc), detail=dict(detail, stderr=se[-800:]))
-        return
+        return None
     fields, exclude = opts.get("fields"), opts.get("exclude")
-    ok = True
     if mode == "csv":
-        ok = compare_csv(ctx, [so], final, fields, exclude, what, detail)
+        fn = lambda c, sl, fi: compare_csv(c, [so], fi, fields, exclude, what, detail)  # noqa: E731
     elif mode in ("line", "line-verbose"):
-        ok = compare_line(ctx, so, final, fields, exclude, mode == "line-verbose", what, detail)
+        fn = lambda c, sl, fi: compare_line(c, so, fi, fields, exclude, mode == "line-verbose", what, detail)  # noqa: E731
     elif mode == "text":
-        ok = compare_textlines(ctx, so, final, what, detail)
+        fn = lambda c, sl, fi: compare_textlines(c, so, fi, what, detail)  # noqa: E731
     elif mode in ("json", "jsonlines"):
-        ok = compare_plain_json(ctx, so, final, what, detail)
-        if ok and mode == "jsonlines" and len([ln for ln in so.split("\n") if ln.strip()]) != len(final):
-            ctx.violation(None, "%s: not one document per line" % what, detail=detail)
-            ok = False
+        fn = lambda c, sl, fi: compare_json_mode(c, so, fi, mode, what, detail)  # noqa: E731
     elif mode == "stream-stdout":
         from flow.record import RecordStreamReader
 
@@ -759,26 +1045,15 @@ def _run_sub(ctx, case, rng, d, sources, argv_src, argv_opts, opts, sliced, fina
             got = list(RecordStreamReader(io.BytesIO(raw))) if raw else []
         except Exception as e:  # noqa: BLE001
             ctx.violation(None, "%s: the stream on stdout cannot be read back" % what, detail=dict(detail, exception=repr(e)[:300]))
-            return
-        ok = compare_records(ctx, got, final, what, detail)
+            return None
+        fn = lambda c, sl, fi: compare_records(c, got, fi, what, detail)  # noqa: E731
     else:  # list
-        got_descs, processed = parse_list_output(so)
-        exp_descs = []
-        for e in sliced:
-            key = (e.obs[1], [(t, n) for t, n in e.obs[2]] + [(M.META_TYPES[m], m) for m in M.META])
-            if key not in exp_descs:
-                exp_descs.append(key)
-        if processed != len(sliced):
-            ctx.violation(None, "%s: 'Processed N records' differs from the reference count" % what, detail=dict(detail, got=processed, expected=len(sliced)))
-            ok = False
-        gd = [(n, f) for n, f in got_descs]
-        if sorted(map(repr, gd)) != sorted(map(repr, exp_descs)):
-            ctx.violation(None, "%s: the set of distinct descriptors differs from the reference" % what,
-                          detail=dict(detail, got=[g[0] for g in gd], expected=[g[0] for g in exp_descs]))
-            ok = False
+        fn = lambda c, sl, fi: compare_list_output(c, so, sl, what, detail)  # noqa: E731
+    ok, (sliced, final) = judge(ctx, candidates, fn)
     _cells(ctx, case, opts, "sub:" + mode + (":stdin" if use_stdin else ""), sources)
     ctx.event("subprocess_runs")
     _account(ctx, case, opts, final, ok, "sub:" + mode, detail)
+    return len(final) if ok else None
 
 
 def _account(ctx, case, opts, final, ok, outkind, detail):
@@ -802,6 +1077,8 @@ def finish(ctx):
     ctx.note("placement_patterns_enumerated", len(placements(ctx.scale(3, 4))) if ctx.shard == 0 else 0)
     ctx.require(ev.get("cases_compared", 0) > 0, "no case reached the comparison")
     ctx.require(ev.get("cases_with_output", 0) > 0, "no case had a non-empty expected output")
+    ctx.require(sum(v for k, v in ev.items() if k.startswith("damaged_source:")) > 0, "no source damaged mid-stream was generated")
+    ctx.require(ev.get("mtx_cases", 0) == 0 or ev.get("mtx_all_modes_same_record_count", 0) > 0, "no --multi-timestamp x projection case was compared in every output mode")
     skipped = sum(v for k, v in ev.items() if k.startswith("skipped:"))
     ctx.require(skipped <= 3 * max(ev.get("cases_compared", 0), 1), "more than 3/4 of the generated cases were skipped (undefined selector / input class)")
     ctx.require(ev.get("skipped:input_outside_class", 0) * 10 <= max(ctx.evaluations, 1), "more than 10% of the cases had sources that do not decode to the records written")
